@@ -75,6 +75,7 @@ type Parser struct {
 	isClient     bool
 	noBody       bool
 	chunkExt     bool
+	failed       error
 	headerExists bool
 }
 
@@ -148,16 +149,20 @@ func parseAndValidateChunkSize(originalStr string) (int, error) {
 // and doesn't parse them itself any more.
 //
 //go:norace
-func (p *Parser) Parse(data []byte) error {
+func (p *Parser) Parse(data []byte) (err error) {
 	p.mux.Lock()
 	defer func() {
+		// an error is final: nothing more is parsed or reported after it.
+		if err != nil {
+			p.failed = err
+		}
 		p.mux.Unlock()
-		if err := recover(); err != nil {
+		if r := recover(); r != nil {
 			const size = 64 << 10
 			buf := make([]byte, size)
 			buf = buf[:runtime.Stack(buf, false)]
 			logging.Error("HTTP Parse failed: %v\n%v\n",
-				err,
+				r,
 				*(*string)(unsafe.Pointer(&buf)),
 			)
 		}
@@ -165,6 +170,9 @@ func (p *Parser) Parse(data []byte) error {
 
 	if p.state == stateClose {
 		return net.ErrClosed
+	}
+	if p.failed != nil {
+		return p.failed
 	}
 
 	if len(data) == 0 {
